@@ -23,7 +23,7 @@ def mk_vector(cells, style):
         return np.array(cells, dtype="uint8" if all(0 <= c < 256 for c in cells) else "int64")
     if not has_mask and style % 3 == 1:
         return np.ma.array(cells, dtype="int64")
-    if style % 2 == 0:
+    if style % 3 == 0:
         # masked_all: uninitialised memory under the mask
         v = np.ma.masked_all(len(cells), dtype="uint8")
         for i, c in enumerate(cells):
@@ -32,7 +32,10 @@ def mk_vector(cells, style):
         return v
     # explicit junk (a flag value!) under the mask
     data = np.array([4 if c is None else c for c in cells], dtype="int64")
-    return np.ma.array(data, mask=[c is None for c in cells])
+    if style % 3 == 1:
+        return np.ma.array(data, mask=[c is None for c in cells])
+    # ... and a flag as the array's fill_value (what a collector that pre-fills with UNKNOWN would hand over)
+    return np.ma.array(data, mask=[c is None for c in cells], fill_value=(2, 4, 3, 1)[(style // 3) % 4])
 
 
 def observe(vectors, style, via):
@@ -57,8 +60,8 @@ def observe(vectors, style, via):
 
 def run(out: Outcome, drv):
     out.rule = ("all columns of height <= 3 over the 7-symbol cell alphabet {1,2,3,4,9,non-flag,masked} (exhaustive, packed into "
-                "vectors), random k<=6 vectors of length <=30, masked cells built with masked_all and with flag-valued junk "
-                "under the mask, every case also permuted / duplicated / regrouped on the real qartod_compare, and run through "
+                "vectors), random k<=6 vectors of length <=30, masked cells built with masked_all, with flag-valued junk "
+                "under the mask and with a flag as fill_value, every case also permuted / duplicated / regrouped on the real qartod_compare, and run through "
                 "aggregate() and PandasStore.compute_aggregate(); non-trivial = result has >= 2 distinct flags")
     cases = []
     # exhaustive columns of height 1..3
@@ -76,7 +79,7 @@ def run(out: Outcome, drv):
         ln = rng.choice([0, 1, 2, 5, 12, 30])
         w = rng.choice([[1, 1, 1, 1, 2, 3, 4, 9, 0, None], [1, 2, 3, 4, 9, 7, None, None], [9, 2, None, 0]])
         vectors = [[rng.choice(w) for _ in range(ln)] for _ in range(k)]
-        cases.append((vectors, rng.randint(0, 5), rng.choice(["compare", "compare", "aggregate", "store"])))
+        cases.append((vectors, rng.randint(0, 11), rng.choice(["compare", "compare", "aggregate", "store"])))
     obs = [observe(v, s, via) for v, s, via in cases]
     ans = drv.run([{"kind": "agg", "vectors": v, "obs": sut.wire_obs(o)} for (v, s, via), o in zip(cases, obs)])
     for (v, s, via), o, a in zip(cases, obs, ans):
